@@ -164,7 +164,7 @@ def body(chk: check.Check):
     dpool = exprenv.pool_draws()
     salt = chk.seed % 9973
     ints = []
-    for max_ops, thin in ([(1, (2,)), (2, (5, 7))] if quick else [(1, (1,)), (2, (2, 3)), (3, (8, 12, 18))]):
+    for max_ops, thin in ([(1, (2,)), (2, (5, 7))] if quick else [(1, (1,)), (2, (2, 3)), (3, (12, 18, 24))]):
         r = tlc.run('MCExprGen', dpool.cfg(max_ops, ['SigSound', 'EmitInv'], salt=salt), extra_modules={'MCExprGen': dpool.module(thin=thin)}, workers='auto', timeout=2400)
         chk.add_tlc(f'ExprLang with draw leaves: {max_ops} operator(s), thin {thin}', r)
         nl = len(dpool.leaves)
